@@ -19,6 +19,7 @@ const GRACE_MS: u64 = 120; // wait for surplus data / an unexpected close
 
 #[derive(Clone, Debug)]
 pub struct Elem {
+    pub kind: String, // "req" | "idle" | "trunc" (head cut off, then shutdown(write)) | "lf" (complete head, bare-LF line endings)
     pub is_req: bool,
     pub wf: bool,
     pub m: String,
@@ -46,12 +47,13 @@ fn path_of(tgt: &str) -> &'static str {
 
 pub fn render(e: &Value, idx: usize, rng: &mut Rng) -> Elem {
     let s = |k: &str| e[k].as_str().unwrap_or("").to_string();
-    let is_req = s("k") == "req";
+    let kind = s("k");
+    let is_req = kind != "idle";
     let wf = e["wf"].as_bool().unwrap_or(true);
     let (m, tgt, conn, ver) = (s("m"), s("tgt"), s("conn"), s("ver"));
     let abs_bl = e["bl"].as_u64().unwrap_or(0) as usize;
     let abs_dl = e["dl"].as_u64().unwrap_or(3) as usize;
-    let mut el = Elem { is_req, wf, m: m.clone(), tgt: tgt.clone(), conn: conn.clone(), ver: ver.clone(), abs_bl, abs_dl, head: vec![], body: vec![], dl: 0 };
+    let mut el = Elem { kind: kind.clone(), is_req, wf, m: m.clone(), tgt: tgt.clone(), conn: conn.clone(), ver: ver.clone(), abs_bl, abs_dl, head: vec![], body: vec![], dl: 0 };
     if !is_req {
         return el;
     }
@@ -64,6 +66,50 @@ pub fn render(e: &Value, idx: usize, rng: &mut Rng) -> Elem {
         _ => String::new(),
     };
     let query = if rng.chance(1, 4) { "?a=1&b=%20" } else { "" };
+    if kind == "trunc" || kind == "lf" {
+        // a well-formed GET head, as lines (start line first), each with its CRLF
+        let mut lines: Vec<String> = vec![format!("GET {}{} HTTP/{}\r\n", path_of(&tgt), query, ver), "Host: localhost\r\n".to_string()];
+        if !conn_line.is_empty() { lines.push(conn_line.clone()); }
+        if rng.chance(1, 2) { lines.push("X-Pad: abcdefghijklmnopqrstuvwxyz\r\n".to_string()); }
+        let l1 = lines[0].len();
+        let nh = lines.len() - 1; // header lines
+        if kind == "trunc" {
+            // abs_dl = where the head is cut: 1 inside the start line, 2 right after it, 3 inside a header line,
+            // 4 after a complete header line (before the blank line; one time in four inside the blank line)
+            let full: String = lines.concat() + "\r\n";
+            let starts: Vec<usize> = (0..=nh).map(|j| lines[..=j].iter().map(|l| l.len()).sum::<usize>()).collect(); // end offset of line j
+            let cut = match abs_dl {
+                1 => if e["hl"].as_u64() == Some(1) { 1 } else { match rng.below(3) { 0 => l1 - 1, 1 => l1 - 2, _ => rng.range(1, l1 - 1) } },
+                2 => l1,
+                3 => { let j = 1 + rng.below(nh); let (b, len) = (starts[j - 1], lines[j].len());
+                       let colon = lines[j].find(':').unwrap_or(1);
+                       // half of the time after the colon: "name: val" without its line ending still splits into name and value
+                       if rng.chance(1, 2) { b + rng.range(colon + 1, len - 1) } else { b + rng.range(1, len - 1) } }
+                _ => if rng.chance(1, 4) { full.len() - 1 } else { starts[1 + rng.below(nh)] },
+            };
+            el.head = full.as_bytes()[..cut.max(1).min(full.len() - 1)].to_vec();
+            el.dl = el.head.len();
+            el.wf = false;
+            return el;
+        }
+        // "lf": abs_dl = which line endings are a bare LF: 1 all of them, 2 the start line's, 3 one header line's, 4 the blank line's.
+        // dl = end of the first such line (where the strict parser gives up)
+        let mut blank = "\r\n".to_string();
+        let strip = |l: &mut String| { let n = l.len(); l.replace_range(n - 2.., "\n"); };
+        match abs_dl {
+            1 => { for l in lines.iter_mut() { strip(l); } strip(&mut blank); }
+            2 => strip(&mut lines[0]),
+            3 => { let j = 1 + rng.below(nh); strip(&mut lines[j]); }
+            _ => strip(&mut blank),
+        }
+        lines.push(blank);
+        let mut off = 0usize; let mut dl = 0usize;
+        for l in &lines { off += l.len(); if dl == 0 && !l.ends_with("\r\n") { dl = off; } }
+        el.head = lines.concat().into_bytes();
+        el.dl = dl;
+        el.wf = false;
+        return el;
+    }
     if wf {
         let mut h = format!("{} {}{} HTTP/{}\r\nHost: localhost\r\n{}", m, path_of(&tgt), query, ver, conn_line);
         if rng.chance(1, 3) { h.push_str("X-Pad: abcdefghijklmnopqrstuvwxyz\r\n"); }
@@ -110,7 +156,7 @@ pub fn render(e: &Value, idx: usize, rng: &mut Rng) -> Elem {
 }
 
 fn elem_json(e: &Elem) -> Value {
-    json!({"k": if e.is_req {"req"} else {"idle"}, "hl": e.head.len(), "dl": e.dl, "bl": e.body.len(), "wf": e.wf,
+    json!({"k": e.kind, "hl": e.head.len(), "dl": e.dl, "bl": e.body.len(), "wf": e.wf,
            "m": e.m, "tgt": e.tgt, "conn": e.conn, "ver": e.ver})
 }
 
@@ -292,6 +338,8 @@ fn segments(job: &Job, elems: &[Elem], rng: &mut Rng) -> Vec<Option<Vec<u8>>> {
         }
         "bytewise" => { cuts = (1..=total).collect(); }
         "whole" => { cuts = vec![total]; }
+        // one segment per request (the response to a request has normally arrived before the next one is written)
+        "reqs" => { let mut c = 0; for e in elems { if e.is_req { c += e.head.len() + e.body.len(); cuts.push(c); } } }
         p if p.starts_with("split:") => { let k: usize = p[6..].parse().unwrap_or(1); cuts = vec![k.min(total), total]; }
         p if p.starts_with("random") => { let mut c = 0; while c < total { c += rng.range(1, (total / 3).max(2)); cuts.push(c.min(total)); } }
         _ => { cuts = vec![total]; }
@@ -375,6 +423,11 @@ pub fn run_job(job: &Job, addr: SocketAddr, seed: u64, mon: Option<&Mon>) -> Val
         if eof { break; }
     }
     let mut eof_logged = events.iter().any(|e| e["e"] == "Eof");
+    // a head truncated by the client's half-close: everything the script holds has been written, end our sending side
+    if !eof && elems.last().map(|e| e.kind == "trunc").unwrap_or(false) {
+        let _ = s.shutdown(Shutdown::Write);
+        events.push(ev("Shut", 0, false, no_resp()));
+    }
     // a client that is slow to start reading: a large response must still arrive complete
     if job.slow_read_ms > 0 { std::thread::sleep(Duration::from_millis(job.slow_read_ms)); }
     // collect the owed responses (pacing by the expected count; the verdict is TLC's)
